@@ -188,7 +188,10 @@ def v4_nlri(prefixes: list[str], addpath: bool, path_id: int = 1) -> bytes:
 
 @st.composite
 def nlri_for(draw, i: int) -> bytes:
-    """a short IPv4 unicast NLRI section in the encoding session i negotiated"""
+    """a short IPv4 unicast NLRI section in the encoding session i negotiated (mostly one of two fixed ones)"""
+    if draw(st.integers(0, 4)) != 0:
+        prefixes = draw(st.sampled_from([V4_PREFIXES[:1], V4_PREFIXES[1:3]]))
+        return v4_nlri(prefixes, ws.has_ap(SESS[i], 1, 1), 1)
     prefixes = draw(st.lists(st.sampled_from(V4_PREFIXES), min_size=1, max_size=3, unique=True))
     return v4_nlri(prefixes, ws.has_ap(SESS[i], 1, 1), draw(st.sampled_from([0, 1, 7])))
 
@@ -212,6 +215,14 @@ def dual_path_value(draw) -> bytes:
 
 @st.composite
 def dual_block(draw, with_as4: bool = False) -> list[bytes]:
+    """a dual-reading block: from the catalogue (so that reference decodes are shared between cases) or new"""
+    if draw(st.integers(0, 3)) != 0:
+        return draw(st.sampled_from(CATALOGUE['dual-as4' if with_as4 else 'dual']))
+    return draw(new_dual_block(with_as4))
+
+
+@st.composite
+def new_dual_block(draw, with_as4: bool = False) -> list[bytes]:
     """a non-MP attribute block (list of TLVs) whose AS_PATH reads well-formed under both ASN widths"""
     tlvs = [
         build.attribute(0x40, 1, bytes([draw(st.integers(0, 2))])),
@@ -244,6 +255,14 @@ def dual_block(draw, with_as4: bool = False) -> list[bytes]:
 
 @st.composite
 def base_update(draw, i: int) -> tuple[bytes, list[bytes], list[bytes], bytes, bytes]:
+    """a refwire.strategies UPDATE well-formed for session i: from the catalogue or new"""
+    if draw(st.integers(0, 3)) != 0:
+        return draw(st.sampled_from(CATALOGUE[f'update-{i}']))
+    return draw(new_base_update(i))
+
+
+@st.composite
+def new_base_update(draw, i: int) -> tuple[bytes, list[bytes], list[bytes], bytes, bytes]:
     """a refwire.strategies UPDATE well-formed for session i -> (body, non-MP TLVs, MP TLVs, withdrawn, nlri)"""
     desc = draw(ws.updates(SESS[i]))
     body = ws.render_update(desc)
@@ -443,11 +462,16 @@ def m_as4_cross(draw, msgs: list) -> list:
     return {'2-4': [first, second], '4-2': [second, first], '2-4-2': [first, second, first], '2-2-4': [first, first, second]}[order]
 
 
+@st.composite
+def new_open_body(draw) -> bytes:
+    caps = draw(st.lists(st.sampled_from(CAP_CATALOGUE), min_size=1, max_size=6))
+    return build.open_with_caps(draw(st.sampled_from([65001, 65002, 23456])), draw(st.sampled_from([90, 180, 0])), 0x0A000002, caps, grouping=draw(st.sampled_from(['each', 'one'])))
+
+
 def m_opens(draw, msgs: list) -> list:
     out = []
     for _ in range(draw(st.integers(2, 3))):
-        caps = draw(st.lists(st.sampled_from(CAP_CATALOGUE), min_size=1, max_size=6))
-        body = build.open_with_caps(draw(st.sampled_from([65001, 65002, 23456])), draw(st.sampled_from([90, 180, 0])), 0x0A000002, caps, grouping=draw(st.sampled_from(['each', 'one'])))
+        body = draw(st.sampled_from(CATALOGUE['open'])) if draw(st.integers(0, 3)) != 0 else draw(new_open_body())
         out.append([draw(sess_idx), OPEN, body.hex()])
     if draw(st.integers(0, 2)) == 0:
         out.append([draw(sess_idx), OPEN, out[0][2]])
@@ -487,6 +511,40 @@ def m_dual_nlri(draw, msgs: list) -> list:
     return pair if draw(st.booleans()) else pair[::-1]
 
 
+# ---------------------------------------------------------------------------- catalogue
+#
+# A fork costs tens of milliseconds, and every distinct (session, message) needs one for its reference decode.  Most
+# ingredients therefore come from a fixed catalogue - the first examples Hypothesis gives for each ingredient strategy,
+# derandomized, so every process builds the same one - and the reference decodes are shared between cases; one draw in
+# four is new.  What varies freely from case to case is the sequence: who sends what after what.
+
+CATALOGUE: dict[str, list] = {}
+
+
+def _first_examples(strategy, wanted: int, label: str) -> list:
+    from hypothesis import HealthCheck, Phase, given, settings
+
+    seen: dict = {}
+
+    def collect(value) -> None:
+        seen.setdefault(repr(value), value)
+
+    collect.__name__ = collect.__qualname__ = f'c19_catalogue_{label}'  # derandomize derives its seed from the test
+    test = settings(max_examples=wanted * 3, database=None, deadline=None, derandomize=True, suppress_health_check=list(HealthCheck), phases=[Phase.generate])(given(strategy)(collect))
+    test()
+    return list(seen.values())[:wanted]
+
+
+def build_catalogue() -> None:
+    if CATALOGUE:
+        return
+    CATALOGUE['dual'] = _first_examples(new_dual_block(), 40, 'dual')
+    CATALOGUE['dual-as4'] = _first_examples(new_dual_block(True), 12, 'dual_as4')
+    for i in range(NS):
+        CATALOGUE[f'update-{i}'] = _first_examples(new_base_update(i), 16, f'update_{i}')
+    CATALOGUE['open'] = _first_examples(new_open_body(), 24, 'open')
+
+
 MOTIFS = {
     'cross-identical': (m_cross_identical, 5),
     'near-identical': (m_near_identical, 3),
@@ -504,8 +562,13 @@ MOTIFS = {
 _WEIGHTED = [name for name, (_, w) in MOTIFS.items() for _ in range(w)]
 
 
+def sequences():
+    build_catalogue()
+    return _sequences()
+
+
 @st.composite
-def sequences(draw) -> dict:
+def _sequences(draw) -> dict:
     target = draw(st.sampled_from([2, 2, 3, 3, 4, 4, 5, 6, 8, 10, 14, 20, 30]))
     msgs: list = []
     motifs: list[str] = []
